@@ -46,6 +46,10 @@ fn main() -> Result<(), Box<dyn Error>> {
         }
     }
 
+    // Replacing the children of the document node may have removed the document element.
+    dom.document_element()
+        .map_err(|_| "The result has no document element.")?;
+
     let mut buf = BufWriter::new(io::stdout().lock());
     if arg.no_indent {
         buf.write_fmt(format_args!("{}\n", dom))?;
